@@ -10,4 +10,5 @@ import Plonk.Props.C14
 #print axioms Plonk.Props.C14.fixedBase_complete_digits
 #print axioms Plonk.Props.C14.mulGenerator_error_iff
 #print axioms Plonk.Props.C14.mulGenerator_exact
+#print axioms Plonk.Props.C14.mulGenerator_satisfiable_iff
 #print axioms Plonk.Props.C14.no_wrap_depends_on_constants
